@@ -29,7 +29,24 @@ def run(ck, build):
     ck.not_decided += ["values; that the computed tag depends on every input bit (cipher property)", "alignment independence is C06's"]
     if modecommon.nostate_rule(ck, build, "R-C08-NOSTATE", ("siv",), "the six SIV entry points"):
         return
-    mod, fns, n = modecommon.run_mode(ck, build, ("siv",), RM, helper_fns=False, floor_obl=100)
+    # shape-independent and relational first: the whole round trip for every message length up to the bound as straight paths (it needs no
+    # loop shape, so it is asked before the rules that do)
+    from . import duallib
+    from ..facts import Module as _Module
+    mod = _Module(build.facts("H", "N0"))
+    try:
+        for ks_ in ("128", "192", "256"):
+            duallib.check_pair_small_siv(ck, mod, ks_, "H/N0", {"SMALLRT": "R-C08-SMALL"}, maxlen=(288 if ck.tier == "thorough" else 80))
+    except modecommon.Broken as e:
+        ck.note("small-length round-trip rule not decided: %s" % str(e)[:200])
+    try:
+        mod, fns, n = modecommon.run_mode(ck, build, ("siv",), RM, helper_fns=False, floor_obl=100)
+    except modecommon.Broken as e:
+        if not ck.violations:
+            raise
+        # the relational small-length rule has refuted concrete round trips; that the per-class rules do not follow this code's shape does not take them back
+        ck.note("per-class rules not decided: %s" % str(e)[:200])
+        return
     ck.rule("R-C08-KEY", "premise of 'a modified key is rejected': in every SIV function the key words the cipher runs on are an injective function of the key bytes (rank of the GF(2)-linear "
             "map): a key byte dropped or read twice alike in both directions keeps every relational rule")
     ck.rule("R-C08-ABSORB", "premise of 'modified bodies and associated data are rejected': the shared absorb function (associated data, and the plaintext in the authentication pass) leaves a "
@@ -37,13 +54,6 @@ def run(ck, build):
             "class and for every size 0..24 as straight paths; a deviation made alike in both directions is invisible to the relational rules")
     from . import aeadlib as _ael
     _ael.absorb_injective_rule(ck, mod, "H/N0", "R-C08-ABSORB")
-    # shape-independent and relational: the whole SIV round trip for every message length 0..80 as straight paths
-    from . import duallib
-    try:
-        for ks_ in ("128", "192", "256"):
-            duallib.check_pair_small_siv(ck, mod, ks_, "H/N0", {"SMALLRT": "R-C08-SMALL"}, maxlen=(160 if ck.tier == "thorough" else 80))
-    except modecommon.Broken as e:
-        ck.note("small-length round-trip rule not decided: %s" % str(e)[:200])
     snap = ck.snapshot()
     try:
         npair = modecommon.run_pairs(ck, mod, ("siv",), PAIR)
